@@ -116,6 +116,53 @@ Definition roster_get_id (H256 U5 : bytes -> bytes) (g : list gmember) : res :=
   | Some r => RId (roster_id H256 U5 r)
   end.
 
+(* ---------- the Roster value and the caller's slice ----------------------
+   NewRoster stores a COPY of the slice it is given (r.List = append(r.List, ids...)):
+   the value it returns -- its ID field and its own member list -- is one object,
+   the caller's slice another.  Later edits of the caller's slice are steps of a
+   two-component world that change the first component only. *)
+Record roster_val := { rv_id : bytes; rv_list : list gmember }.
+
+Definition new_roster_val (H256 U5 : bytes -> bytes) (g : list gmember) : option roster_val :=
+  match new_roster H256 U5 g with
+  | RId b => Some {| rv_id := b; rv_list := g |}
+  | _ => None
+  end.
+
+Inductive slice_edit := ESwap (i j : nat) | ESet (i : nat) (m : gmember).
+
+Fixpoint set_nth {A} (l : list A) (i : nat) (x : A) : list A :=
+  match l, i with
+  | [], _ => []
+  | _ :: r, 0 => x :: r
+  | y :: r, S i' => y :: set_nth r i' x
+  end.
+
+(* an index outside the slice would panic in the CALLER's code; the edit is then void *)
+Definition apply_edit (s : list gmember) (e : slice_edit) : list gmember :=
+  match e with
+  | ESwap i j =>
+      match nth_error s i, nth_error s j with
+      | Some a, Some b => set_nth (set_nth s i b) j a
+      | _, _ => s
+      end
+  | ESet i m => set_nth s i m
+  end.
+
+Definition edit_world (w : list gmember * roster_val) (e : slice_edit) : list gmember * roster_val :=
+  (apply_edit (fst w) e, snd w).
+
+(* Roster.Search(id of a member with key k): position of the first member with that key *)
+Fixpoint roster_search (l : list gmember) (k : key) (pos : nat) : option nat :=
+  match l with
+  | [] => None
+  | m :: r =>
+      match g_key m with
+      | Some k' => if bytes_eqb (kbin k') (kbin k) then Some pos else roster_search r k (S pos)
+      | None => roster_search r k (S pos)
+      end
+  end.
+
 (* ---------- trees -------------------------------------------------------- *)
 
 Inductive tree := TNode (k : key) (ch : list tree).
